@@ -957,31 +957,59 @@ theorem doSetClsCore_effect (w : World) (k : ClsId) (x : Name) (lit : Lit) :
     obtain ⟨v, cells1⟩ := r
     obtain ⟨⟨extra, rfl⟩, hv⟩ := evalLit_spec hev
     simp only
-    generalize hp : (if k' = k then P else { P with owner := Owner.cls k }) = p
-    have hpc : p.cells = P.cells := by
-      subst hp; split <;> rfl
-    have e1 : ClsEffect w (({ w with cells := w.cells ++ extra }).setOwn k x p) :=
-      ClsEffect.setOwn (ClsEffect.of_cells (by simp))
-        (fun c hc => Or.inl (resolve_held hr c (hpc ▸ hc)))
-    cases hval : validate (({ w with cells := w.cells ++ extra }).setOwn k x p).cells p v with
+    -- the Parameter object that ends up in `K.__dict__` and the heap after making it
+    generalize hp : (if k' = k then (P, w.cells ++ extra) else
+        ((({ P with owner := Owner.cls k, mslots := (copySlots (w.cells ++ extra) P.mslots).1 } : PObj),
+          (copySlots (w.cells ++ extra) P.mslots).2) : PObj × List (List Int))) = r
+    obtain ⟨p, cells1'⟩ := r
+    have hpp : (∃ e2, cells1' = w.cells ++ extra ++ e2) ∧ p.default = P.default ∧
+        (∀ c : Nat, c ∈ p.slotCells → c ∈ P.slotCells ∨ ((w.cells ++ extra).length ≤ c ∧ c < cells1'.length)) := by
+      split at hp
+      · simp at hp; obtain ⟨rfl, rfl⟩ := hp
+        exact ⟨⟨[], by simp⟩, rfl, fun c hc => Or.inl hc⟩
+      · generalize hcs : copySlots (w.cells ++ extra) P.mslots = r2 at hp
+        obtain ⟨ms, c2⟩ := r2
+        simp at hp; obtain ⟨rfl, rfl⟩ := hp
+        obtain ⟨⟨e2, rfl⟩, hfresh⟩ := copySlots_spec _ _ _ _ hcs
+        refine ⟨⟨e2, rfl⟩, rfl, ?_⟩
+        intro c hc
+        simp only [PObj.slotCells, List.mem_map] at hc
+        obtain ⟨sc, hsc, rfl⟩ := hc
+        exact Or.inr (hfresh sc.1 sc.2 hsc)
+    obtain ⟨⟨e2, rfl⟩, hdef, hslots⟩ := hpp
+    have hcells : ∀ c : Nat, c ∈ p.cells → heldByClass w c ∨ (w.cells.length ≤ c ∧ c < (w.cells ++ extra ++ e2).length) := by
+      intro c hc
+      simp only [PObj.cells, List.mem_append] at hc
+      rcases hc with hc | hc
+      · exact Or.inl (resolve_held hr c (by simp [PObj.cells, ← hdef, hc]))
+      · rcases hslots c (by simpa [PObj.slotCells] using hc) with h | h
+        · exact Or.inl (resolve_held hr c (by simp only [PObj.cells, List.mem_append]; exact Or.inr (by simpa [PObj.slotCells] using h)))
+        · right; simp at h ⊢; omega
+    have e1 : ClsEffect w (({ w with cells := w.cells ++ extra ++ e2 }).setOwn k x p) :=
+      ClsEffect.setOwn (ClsEffect.of_cells (by simp)) hcells
+    show ClsEffect w (match validate (({ w with cells := w.cells ++ extra ++ e2 }).setOwn k x p).cells p v with
+      | .error e => (({ w with cells := w.cells ++ extra ++ e2 } : World), some e)
+      | .ok cells2 => (({ ({ w with cells := w.cells ++ extra ++ e2 }).setOwn k x p with cells := cells2 }).setOwn k x { p with default := v }, none)).1
+    cases hval : validate (({ w with cells := w.cells ++ extra ++ e2 }).setOwn k x p).cells p v with
     | error e => exact ClsEffect.of_cells (by simp)
     | ok cells2 =>
       obtain ⟨hl, _⟩ := validate_spec hval
       simp only
-      have hlen1 : (({ w with cells := w.cells ++ extra }).setOwn k x p).cells.length = (w.cells ++ extra).length := by
+      have hlen1 : (({ w with cells := w.cells ++ extra ++ e2 }).setOwn k x p).cells.length = (w.cells ++ extra ++ e2).length := by
         rw [setOwn_cells]
-      have e2 : ClsEffect w { ({ w with cells := w.cells ++ extra }).setOwn k x p with cells := cells2 } :=
+      have e2' : ClsEffect w { ({ w with cells := w.cells ++ extra ++ e2 }).setOwn k x p with cells := cells2 } :=
         e1.trans (ClsEffect.of_cells (by rw [hl]; exact Nat.le_refl _))
-      refine ClsEffect.setOwn e2 ?_
+      refine ClsEffect.setOwn e2' ?_
       intro c hc
       simp only [PObj.cells, List.mem_append] at hc
       rcases hc with hc | hc
       · right
         have := hv c hc
         simp only [hl, hlen1]
-        exact this
-      · left
-        exact resolve_held hr c (by rw [← hpc]; simp [PObj.cells, hc])
+        simp at this ⊢; omega
+      · rcases hcells c (by simp only [PObj.cells, List.mem_append]; exact Or.inr hc) with h | h
+        · exact Or.inl h
+        · right; simp only [hl, hlen1]; exact h
 
 theorem doSetCls_effect (w : World) (k : ClsId) (x : Name) (lit : Lit) :
     ClsEffect w (doSetCls w k x lit).1 := by
@@ -1000,6 +1028,29 @@ theorem doMutVal_cells (w : World) (t : Target) (x : Name) (n : Int) :
   · exact ⟨_, rfl, by simp⟩
 
 
+theorem allocSlots_spec : ∀ (sl : List (Slot × List Int)) (cells : List (List Int))
+    (ms : List (Slot × CellId)) (cells' : List (List Int)),
+    allocSlots cells sl = (ms, cells') →
+    (∃ extra, cells' = cells ++ extra) ∧
+    (∀ (s : Slot) (c : Nat), (s, c) ∈ ms → cells.length ≤ c ∧ c < cells'.length)
+  | [], cells, ms, cells', h => by
+    simp [allocSlots] at h; obtain ⟨rfl, rfl⟩ := h; exact ⟨⟨[], by simp⟩, by simp⟩
+  | (s, l) :: rest, cells, ms, cells', h => by
+    simp only [allocSlots] at h
+    generalize hr : allocSlots (cells ++ [l]) rest = r at h
+    obtain ⟨rest', cells2⟩ := r
+    simp at h
+    obtain ⟨rfl, rfl⟩ := h
+    obtain ⟨⟨extra, he⟩, hb⟩ := allocSlots_spec rest _ _ _ hr
+    refine ⟨⟨[l] ++ extra, by simp [he]⟩, ?_⟩
+    intro s1 c1 hsc
+    simp only [List.mem_cons, Prod.mk.injEq] at hsc
+    rcases hsc with ⟨rfl, rfl⟩ | hsc
+    · simp [he]
+    · have := hb s1 c1 hsc
+      simp at this
+      constructor <;> omega
+
 theorem declare_spec {cells cells' : List (List Int)} {k : ClsId} {d : Decl} {p : PObj}
     (h : declare cells k d = (p, cells')) :
     (∃ extra, cells' = cells ++ extra) ∧ (∀ c : Nat, c ∈ p.cells → cells.length ≤ c ∧ c < cells'.length) := by
@@ -1007,49 +1058,18 @@ theorem declare_spec {cells cells' : List (List Int)} {k : ClsId} {d : Decl} {p 
   generalize hev : evalLit cells d.default = r at h
   obtain ⟨dv, cells1⟩ := r
   obtain ⟨⟨e1, rfl⟩, hv⟩ := evalLit_spec hev
-  cases hb : d.boundsList with
-  | none =>
-    cases ho : d.objects with
-    | none =>
-      simp [hb, ho] at h
-      obtain ⟨rfl, rfl⟩ := h
-      refine ⟨⟨e1, rfl⟩, ?_⟩
-      intro c hc
-      simp [PObj.cells] at hc
-      exact hv c hc
-    | some l =>
-      simp [hb, ho] at h
-      obtain ⟨rfl, rfl⟩ := h
-      refine ⟨⟨e1 ++ [l, []], by simp⟩, ?_⟩
-      intro c hc
-      simp [PObj.cells] at hc
-      rcases hc with hc | rfl | rfl
-      · have := hv c hc; simp at this ⊢; omega
-      · simp
-      · simp; omega
-  | some lh =>
-    obtain ⟨lo, hi⟩ := lh
-    cases ho : d.objects with
-    | none =>
-      simp [hb, ho] at h
-      obtain ⟨rfl, rfl⟩ := h
-      refine ⟨⟨e1 ++ [[lo, hi]], by simp⟩, ?_⟩
-      intro c hc
-      simp [PObj.cells] at hc
-      rcases hc with hc | rfl
-      · have := hv c hc; simp at this ⊢; omega
-      · simp
-    | some l =>
-      simp [hb, ho] at h
-      obtain ⟨rfl, rfl⟩ := h
-      refine ⟨⟨e1 ++ [[lo, hi]] ++ [l, []], by simp⟩, ?_⟩
-      intro c hc
-      simp [PObj.cells] at hc
-      rcases hc with hc | rfl | rfl | rfl
-      · have := hv c hc; simp at this ⊢; omega
-      · simp
-      · simp
-      · simp; omega
+  simp only at h
+  generalize hal : allocSlots (cells ++ e1) (declSlots d) = r at h
+  obtain ⟨ms, cells2⟩ := r
+  obtain ⟨⟨e2, rfl⟩, hms⟩ := allocSlots_spec _ _ _ _ hal
+  simp at h
+  obtain ⟨rfl, rfl⟩ := h
+  refine ⟨⟨e1 ++ e2, by simp⟩, ?_⟩
+  intro c hc
+  simp only [PObj.cells, List.mem_append, List.mem_map] at hc
+  rcases hc with hc | ⟨sc, hsc, rfl⟩
+  · have := hv c hc; simp at this ⊢; omega
+  · have := hms sc.1 sc.2 hsc; simp at this ⊢; omega
 
 theorem declareAll_spec {k : ClsId} : ∀ (ds : List Decl) (cells : List (List Int))
     (own : List (Name × PObj)) (cells' : List (List Int)),
@@ -1648,5 +1668,13 @@ theorem Inv.empty : Inv World.empty :=
    by intro j J hJ; simp [World.empty] at hJ,
    by intro i I hI; simp [World.empty] at hI⟩
 
+
+theorem setOwn_get {w : World} {k : ClsId} {x : Name} {p : PObj} {K0 : Cls} (h : w.classes[k]? = some K0) :
+    (w.setOwn k x p).classes[k]? = some { K0 with own := aset K0.own x p } := by
+  have hk : k < w.classes.length := by
+    rcases Nat.lt_or_ge k w.classes.length with h1 | h1
+    · exact h1
+    · rw [List.getElem?_eq_none h1] at h; simp at h
+  simp [World.setOwn, World.cls?, h, List.getElem?_set_self hk]
 
 end ParamVerif.Objects
